@@ -1,23 +1,49 @@
 /-
-C04 proofs — the invariant behind `cancel_reaches_all_bound` for the repaired protocol (`cfg = ⟨true, true⟩`: the
-propagator holds the binder's fall-back mutex; the binder's copies never clear the flag).  Definitions only.
+C04 proofs — the invariant behind `cancel_reaches_all_bound_with_reset` for the repaired protocol (`cfg = C r`: the
+propagator holds the binder's fall-back mutex; the binder's copies never clear the flag), for programs WITH resets.
+Definitions only.
 
-Key notions.  Propagation number `n` (1 ≤ n ≤ G) has source `srcOf n`; it runs entirely while `G = n` (propagations are
-serialised by the registry mutex) and `epoch L ≥ n` means it has finished list `L`.  A source whose winning cancel
-returned at the hint test (`skip`) counts as having passed every list.
-  P1   every registered context x beneath a source that has passed x's list is cancelled, or its binder is still at a
-       point from which it will copy the parent's (already final) flag again.
+Key notions.  Propagation number `n` (1 ≤ n ≤ G) has source `srcOf n` and stamp `pst n` (the ghost-clock value of the
+winning exchange it belongs to); it runs entirely while `G = n` (propagations are serialised by the registry mutex) and
+`epoch L ≥ n` means it has finished list `L`.  A winning cancel that returned at the hint test (`skipSt`) counts as having
+passed every list.  Because `reset` clears flags, "x is cancelled" is replaced by `Vf m a x`: x is cancelled, or x (or a
+context between x and the source a) was reset after the stamp m of the cancellation — a fact that, once true, stays true.
+All claims about a cancellation (a, m) are made only while it is current (`Cur`: a has not been reset since m).
+  P1   every registered context x beneath a source whose current cancellation has passed x's list is `Vf`, or its binder is
+       still at a point from which it will copy the parent's (already final) flag again.
 -/
 import TbbVerif.Proofs.C04.OrigAll
 
 namespace TbbVerif.C04
 
-/-- the repaired protocol -/
-def C : Cfg := ⟨true, true⟩
+/-- the repaired protocol: the propagator holds the binder's fall-back mutex, the binder's copies never clear the flag;
+`r` = the stores `reset` performs (the proofs of `Reach` work for any `r`; `Hint` needs `RF.mhc ∉ r`) -/
+def C (r : List RF) : Cfg := ⟨true, true, r⟩
 
-/-- `a` is the source of a propagation numbered ≤ m, or of a cancel that was skipped at the hint test -/
-def PassedUpTo (skip : Nat → Bool) (srcOf : Nat → Nat) (m a : Nat) : Prop :=
-  skip a = true ∨ ∃ n, 1 ≤ n ∧ n ≤ m ∧ srcOf n = a
+/-- the latest winning cancel of `a` has stamp `m`, and `a` has not been reset since (so `a` is still cancelled) -/
+def Cur (wst rst : Nat → Nat) (a m : Nat) : Prop := wst a = m ∧ rst a < m
+
+/-- the cancellation of `a` that won at stamp `m` returned at the hint test, or is a propagation numbered ≤ k -/
+def Passed (skipSt srcOf pst : Nat → Nat) (k a m : Nat) : Prop :=
+  skipSt a = m ∨ ∃ n, 1 ≤ n ∧ n ≤ k ∧ srcOf n = a ∧ pst n = m
+
+/-- a context is excused from the cancellation with stamp `m`: it was reset after `m`, or it is registered in the context
+list of a thread that has left the registry (the propagator does not walk that list any more) -/
+def Exc (rst : Nat → Nat) (oc : Nat → Bool) (m z : Nat) : Prop := m < rst z ∨ oc z = true
+
+/-- `x`, or a context strictly between `x` and `a`, is excused -/
+def Stale (par : Nat → Option Nat) (rst : Nat → Nat) (oc : Nat → Bool) (m a x : Nat) : Prop :=
+  Exc rst oc m x ∨ ∃ z, Anc par x z ∧ Anc par z a ∧ Exc rst oc m z
+
+/-- "cancelled, relative to the cancellation of `a` at stamp `m`": the flag is set, or the context (or one between it and
+`a`) is excused -/
+def Vf (par : Nat → Option Nat) (can : Nat → Bool) (rst : Nat → Nat) (oc : Nat → Bool) (m a x : Nat) : Prop :=
+  can x = true ∨ Stale par rst oc m a x
+
+/-- the propagation number up to which list `L` is in sync: its epoch word, or — for the fresh list of a thread that
+registered during the run (epoch word still 0) and has not been walked yet — the global epoch at registration (every
+earlier propagation was complete then, and the list was empty) -/
+def St.eff (s : St) (L : Nat) : Nat := if s.fresh L then s.joined L else s.epoch L
 
 /-- pcs at which a thread holds the propagation mutex (cfg = C) -/
 def Pc.inProp : Pc → Bool
@@ -74,34 +100,49 @@ def Pc.pending : Pc → Option (Nat × Nat × List Nat)
   | .cReadG s i | .cSync s i _ | .cUnlockList s i => some (s, i, [])
   | _ => none
 
+/-- the hint invariant (any protocol whose `reset` does not store to my_may_have_children) -/
+structure Hint (s : St) : Prop where
+  /-- a reset in flight has no store to the hint left -/
+  rseq : ∀ t x l, s.pc t = .rSeq x l → RF.mhc ∉ l
+  /-- **the hint of a context with a registered child is set** -/
+  mhcReg : ∀ L x p, x ∈ s.items L → s.par x = some p → s.mhc p = true
+  mhcBind : ∀ t p, (s.pc t).pastHint = some p → s.mhc p = true
+
 structure Reach (reg : List Nat) (s : St) : Prop where
   propMx : ∀ t, (s.pc t).inProp = true → s.propMx = some t
   propHeld : ∀ t, s.propMx = some t → (s.pc t).inProp = true
-  noResetOp : ∀ t x, Op.reset x ∉ s.prog t
-  noResetPc : ∀ t x, s.pc t ≠ .rStore x
   epochLe : ∀ L, s.epoch L ≤ s.G
-  epochNear : ∀ L, L ∈ reg → s.epoch L = s.G ∨ s.epoch L + 1 = s.G
-  epochFree : ∀ L, L ∈ reg → s.propMx = none → s.epoch L = s.G
-  epochWalk : ∀ t L, L ∈ reg → s.propMx = some t → s.epoch L ≠ s.G → ∃ j, (s.pc t).walkFrom = some j ∧ L ∈ reg.drop j
-  srcCan : ∀ n, 1 ≤ n → n ≤ s.G → s.can (s.srcOf n) = true
-  skipCan : ∀ x, s.skip x = true → s.can x = true
+  joinedLe : ∀ L, s.joined L ≤ s.G
+  freshLe : ∀ L, s.fresh L = true → s.epoch L ≤ s.joined L
+  epochNear : ∀ L, L ∈ reg → s.act L = true → s.eff L = s.G ∨ s.eff L + 1 = s.G
+  epochFree : ∀ L, L ∈ reg → s.act L = true → s.propMx = none → s.eff L = s.G
+  epochWalk : ∀ t L, L ∈ reg → s.act L = true → s.propMx = some t → s.eff L ≠ s.G →
+      ∃ j, (s.pc t).walkFrom = some j ∧ L ∈ reg.drop j
   walkG : ∀ t a, (s.pc t).walkSrc = some a → s.srcOf s.G = a ∧ 1 ≤ s.G
   syncG : ∀ t a i g, s.pc t = .cSync a i g → g = s.G
-  wonCan : ∀ t a, (s.pc t).wonSrc = some a → s.can a = true
-  pend : ∀ a, 1 ≤ s.wins a → PassedUpTo s.skip s.srcOf s.G a ∨ ∃ t, (s.pc t).preWalk = some a
-  /-- P1 -/
-  listed : ∀ L x a, x ∈ s.items L → PassedUpTo s.skip s.srcOf (s.epoch L) a → Anc s.par x a →
-      s.can x = true ∨ ∃ t, (s.pc t).coverOf s.G = some x
   snapLe : ∀ t n, (s.pc t).snapVal = some n → n ≤ s.G
-  snapEpoch : ∀ t x p n L, s.pc t = .bSpecL x p n → s.lst p = some L → n ≤ s.epoch L
-  spec : ∀ t x n a, (s.pc t).afterSpec = some (x, n) → PassedUpTo s.skip s.srcOf n a → Anc s.par x a → s.can x = true
+  snapEpoch : ∀ t x p n L, s.pc t = .bSpecL x p n → s.lst p = some L → n ≤ s.eff L
   copyTrue : ∀ t p v, (s.pc t).copyVal = some (p, v) → v = true
-  mhcReg : ∀ L x p, x ∈ s.items L → s.par x = some p → s.mhc p = true
-  mhcBind : ∀ t p, (s.pc t).pastHint = some p → s.mhc p = true
-  fbDone : ∀ t x p a, s.pc t = .bFbU x p → PassedUpTo s.skip s.srcOf s.G a → Anc s.par x a → s.can x = true
+  /-- stamps are in the past -/
+  wstLe : ∀ a, s.wst a ≤ s.clk
+  pstLe : ∀ n, s.pst n ≤ s.clk
+  skipLe : ∀ a, s.skipSt a ≤ s.clk
+  /-- a winning cancel that has not been undone by a reset keeps its context cancelled -/
+  curCan : ∀ a m, Cur s.wst s.rst a m → s.can a = true
+  /-- every current cancellation has been propagated (or was skipped at the hint test), or its winner (or a later caller that
+  will find the flag set at the re-check) is still in front of the epoch increment -/
+  pend : ∀ a m, Cur s.wst s.rst a m → Passed s.skipSt s.srcOf s.pst s.G a m ∨ ∃ t, (s.pc t).preWalk = some a
+  /-- P1 -/
+  listed : ∀ L x a m, x ∈ s.items L → Passed s.skipSt s.srcOf s.pst (s.eff L) a m → Cur s.wst s.rst a m →
+      Anc s.par x a → Vf s.par s.can s.rst s.oc m a x ∨ ∃ t, (s.pc t).coverOf s.G = some x
+  spec : ∀ t x n a m, (s.pc t).afterSpec = some (x, n) → Passed s.skipSt s.srcOf s.pst n a m → Cur s.wst s.rst a m →
+      Anc s.par x a → Vf s.par s.can s.rst s.oc m a x
+  fbDone : ∀ t x p a m, s.pc t = .bFbU x p → Passed s.skipSt s.srcOf s.pst s.G a m → Cur s.wst s.rst a m →
+      Anc s.par x a → Vf s.par s.can s.rst s.oc m a x
   walked : ∀ t a i pend L z, (s.pc t).pending = some (a, i, pend) → reg[i]? = some L → z ∈ s.items L →
-      z ∈ pend ∨ (Anc s.par z a → s.can z = true)
-  painting : ∀ t a i x chain rest, s.pc t = .cPaint a i x chain rest → s.can x = true ∨ chain.head? = some x
+      z ∈ pend ∨ (Anc s.par z a → Vf s.par s.can s.rst s.oc (s.pst s.G) a z)
+  painting : ∀ t a i x chain rest, s.pc t = .cPaint a i x chain rest →
+      Vf s.par s.can s.rst s.oc (s.pst s.G) a x ∨ chain.head? = some x
 
 theorem force_aux3 (x p : Nat) :
     (Pc.bHintL x p).inProp = false ∧ (Pc.bHintL x p).walkFrom = none ∧ (Pc.bHintL x p).walkSrc = none ∧
@@ -121,8 +162,9 @@ theorem force_aux3 (x p : Nat) :
 end TbbVerif.C04
 
 namespace TbbVerif.C04
-@[simp] theorem C_propHolds : C.propHolds = true := rfl
-@[simp] theorem C_copyNeverClears : C.copyNeverClears = true := rfl
+@[simp] theorem C_propHolds (r : List RF) : (C r).propHolds = true := rfl
+@[simp] theorem C_copyNeverClears (r : List RF) : (C r).copyNeverClears = true := rfl
+@[simp] theorem C_resetSeq (r : List RF) : (C r).resetSeq = r := rfl
 
 /-- `exec_cases` for the repaired protocol: the configuration tests are evaluated before splitting -/
 macro "exec_cases_C" : tactic => `(tactic| (
@@ -134,6 +176,7 @@ macro "exec_cases_C" : tactic => `(tactic| (
   all_goals try unfold execOther
   all_goals try unfold walkNext
   all_goals try unfold afterHint
+  all_goals try unfold applyReset
   all_goals try simp only [C_propHolds, C_copyNeverClears, afterLists, ↓reduceIte, Bool.true_and]
   all_goals repeat' split))
 end TbbVerif.C04
